@@ -292,7 +292,7 @@ def svg_path_ops(dstr):
             ok = False
     i = 0
     cmd = None
-    arity = {'M': 2, 'm': 2, 'h': 1, 'v': 1, 'z': 0, 'Z': 0, 'l': 2, 'L': 2}
+    arity = {'M': 2, 'm': 2, 'h': 1, 'v': 1, 'H': 1, 'V': 1, 'z': 0, 'Z': 0, 'l': 2, 'L': 2}
     while i < len(toks):
         t = toks[i]
         if isinstance(t, str):
